@@ -1059,8 +1059,8 @@ def plan(tier, seed):
     tasks.append(("biglist", {"ns": [0, 1, 254, 255, 256, 257], "modes": ["plain", "items", "decode"], "lbs": [0, 1, 2]}))
     if quick:
         tasks.append(("header", {"mode": "sampled", "n": 60000}))
-    per_b = 700 if quick else 16000
-    per_d = 450 if quick else 16000
+    per_b = 700 if quick else 12000
+    per_d = 450 if quick else 12000
     for i in range(16):
         tasks.append(("build", {"shard": i, "n": per_b}))
         tasks.append(("decode", {"shard": i, "n": per_d}))
@@ -1083,6 +1083,19 @@ def _pattern(f, rnd):
     return [0, 255, 65, rnd.randrange(256), 0x5C, 0xB1, 0x7E]
 
 
+CHUNK = 2000
+
+
+def _hyp_chunks(ctx, strat, body, n, offset):
+    """ctx.hyp in chunks: once the budget is used up Hypothesis still draws every remaining example of a run
+    (the body just returns), so a run is kept short; each chunk has its own seed offset (deterministic)."""
+    k = 0
+    while n > 0 and not ctx.out_of_time():
+        ctx.hyp(strat, body, min(n, CHUNK), seed_offset=offset + 1000 * k, max_buckets=2)
+        n -= CHUNK
+        k += 1
+
+
 def run_task(name, kw, ctx):
     if name == "build":
         max_chain = 10 if ctx.tier == "quick" else 20
@@ -1102,7 +1115,7 @@ def run_task(name, kw, ctx):
             ctx.case(case, nt, classes + info.get("classes", []))
             return f
 
-        ctx.hyp(strat, body, kw["n"], seed_offset=kw["shard"], max_buckets=2)
+        _hyp_chunks(ctx, strat, body, kw["n"], kw["shard"])
     elif name == "decode":
         max_chain = 10 if ctx.tier == "quick" else 20
         strat = st.builds(
@@ -1116,7 +1129,7 @@ def run_task(name, kw, ctx):
             ctx.case(case, nt, classes)
             return check_decode(case)
 
-        ctx.hyp(strat, body, kw["n"], seed_offset=100 + kw["shard"], max_buckets=2)
+        _hyp_chunks(ctx, strat, body, kw["n"], 100 + kw["shard"])
     elif name == "ints":
         rnd = random.Random(ctx.seed + 3)
         xs = list(INT_EDGES) + list(INT_OUT)
